@@ -750,4 +750,281 @@ theorem start_atomic (cfg : StartCfg) (hs : cfg.Sound = true) (pp : StartParams)
             refine ⟨by rw [hrb, hb4], fun h => by simp at h, fun _ => ⟨trivial, trivial, hO5⟩⟩
 
 
+
+/-- invariant of an open handle `x` in world `w` relative to a frame: `L` the other live blocks,
+`F` the other open descriptors, `c0`/`k0` the final close counts of the caller's FILE / the callback,
+`b0` the invalid-operation count -/
+structure HInv (cb : Callbacks) (x : Hio) (w : World) (L : List Tok) (F c0 k0 b0 : Nat) : Prop where
+  live : ∀ u, w.live.count u = L.count u + [x.h].count u + (ptrs [x.inner]).count u + (ptrs [x.buf]).count u
+  fds : w.openFds = F + (if x.type = .file ∧ x.noclose = false then 1 else 0)
+  tfile : x.type = .file → x.inner = none ∧ x.buf = none
+  tcb : x.type = .cb → x.inner.isSome = true ∧ x.buf = none
+  own : x.type = .file → x.noclose = false → (x.stream = .ownedFile ∨ x.stream = .tempFile)
+  caller : w.closed.count .callerFile = c0
+  cbk : w.closed.count .callback + (if x.type = .cb ∧ cb.hasClose = true then 1 else 0) = k0
+  bad : w.bad = b0
+
+/-- hio_close_internal under the invariant: releases inner blocks / descriptor / callback -/
+theorem closeInternal_spec (cb : Callbacks) (x : Hio) (w : World) (L : List Tok) (F c0 k0 b0 : Nat)
+    (h : HInv cb x w L F c0 k0 b0) :
+    let w' := hioCloseInternal cb x w
+    (∀ u, w'.live.count u = L.count u + [x.h].count u) ∧ w'.openFds = F ∧
+    w'.closed.count .callerFile = c0 ∧ w'.closed.count .callback = k0 ∧ w'.bad = b0 := by
+  obtain ⟨hl, hf, ht, hc, ho, hca, hk, hb⟩ := h
+  obtain ⟨xh, xty, xnc, xst, xin, xbf⟩ := x
+  simp only at hl hf ht hc ho hk
+  unfold hioCloseInternal
+  simp only
+  cases hty : xty
+  · -- file
+    obtain ⟨i0, b0'⟩ := ht hty
+    cases hn : xnc
+    · have hs := ho hty hn
+      simp only [hty, hn, World.fcloseOwned, Bool.false_eq_true, if_false]
+      refine ⟨?_, ?_, ?_, ?_, hb⟩
+      · intro u; have := hl u; simpa [i0, b0'] using this
+      · simp [hty, hn] at hf; omega
+      · rcases hs with hs | hs <;> simp [hs, List.count_cons, hca]
+      · simp [hty] at hk
+        rcases hs with hs | hs <;> simp [hs, List.count_cons, hk]
+    · simp only [hty, hn, if_true]
+      refine ⟨?_, ?_, hca, ?_, hb⟩
+      · intro u; have := hl u; simpa [i0, b0'] using this
+      · simpa [hty, hn] using hf
+      · simpa [hty] using hk
+  · -- mem: free buf then the MFILE
+    simp only [hty]
+    have hsub : Sub (ptrs [xbf, xin]) w.live := by
+      intro u; have := hl u
+      cases xbf <;> cases xin <;>
+        simp only [ptrs_cons_some, ptrs_cons_none, ptrs_nil, List.count_cons, List.count_nil] at this ⊢ <;> omega
+    obtain ⟨a, _, _, d, e⟩ := freeAll_spec [xbf, xin] w hsub
+    have hw : (w.free xbf).free xin = freeAll [xbf, xin] w := rfl
+    rw [hw]
+    obtain ⟨d1, d2, d3⟩ := d
+    refine ⟨?_, ?_, ?_, ?_, by rw [a, hb]⟩
+    · intro u; have h1 := e u; have h2 := hl u
+      cases xbf <;> cases xin <;>
+        simp only [ptrs_cons_some, ptrs_cons_none, ptrs_nil, List.count_cons, List.count_nil] at h1 h2 ⊢ <;> omega
+    · rw [d3]; simpa [hty] using hf
+    · rw [d1]; exact hca
+    · rw [d1]; simpa [hty] using hk
+  · -- callbacks
+    obtain ⟨i0, b0'⟩ := hc hty
+    cases hin : xin with
+    | none => simp [hin] at i0
+    | some f =>
+      simp only [hty, cbclose]
+      have hmem : f ∈ (if cb.hasClose = true then w.close .callback else w).live := by
+        have := hl f
+        cases cb.hasClose <;> simp [World.close, hin, b0', List.count_cons] at this ⊢ <;>
+          exact List.count_pos_iff.mp (by omega)
+      rw [free_live hmem]
+      refine ⟨?_, ?_, ?_, ?_, ?_⟩
+      · intro u; have := hl u
+        have hp : 0 < w.live.count f := by have := hl f; simp [hin, List.count_cons] at this; omega
+        cases cb.hasClose <;> simp [World.close, hin, b0', List.count_cons, List.count_erase] at this ⊢ <;>
+          (by_cases hfu : f = u <;> simp_all <;> omega)
+      · cases cb.hasClose <;> simpa [World.close, hty] using hf
+      · cases cb.hasClose <;> simpa [World.close, List.count_cons] using hca
+      · cases hh : cb.hasClose <;> simp [World.close, List.count_cons, hty, hh] at hk ⊢ <;> omega
+      · cases cb.hasClose <;> simpa [World.close] using hb
+
+
+
+theorem HInv.frame {cb : Callbacks} {x : Hio} {w w' : World} {L : List Tok} {F c0 k0 b0 : Nat}
+    (h : HInv cb x w L F c0 k0 b0) (hl : w'.live = w.live) (hf : w'.openFds = w.openFds)
+    (hc : w'.closed = w.closed) (hb : w'.bad = w.bad) : HInv cb x w' L F c0 k0 b0 := by
+  obtain ⟨a1, a2, a3, a4, a5, a6, a7, a8⟩ := h
+  exact ⟨by rw [hl]; exact a1, by rw [hf]; exact a2, a3, a4, a5, by rw [hc]; exact a6, by rw [hc]; exact a7,
+    by rw [hb]; exact a8⟩
+
+theorem reopenSeq_inv (cb : Callbacks) : ∀ (rs : List (Bool × Bool)) (x : Hio) (w : World) (L : List Tok)
+    (F c0 k0 b0 : Nat), HInv cb x w L F c0 k0 b0 →
+    HInv cb (reopenSeq cb rs x w).1 (reopenSeq cb rs x w).2 L F c0 k0 b0 := by
+  intro rs
+  induction rs with
+  | nil => intro x w L F c0 k0 b0 h; exact h
+  | cons r rs ih =>
+    intro x w L F c0 k0 b0 h
+    obtain ⟨toMem, ok⟩ := r
+    unfold reopenSeq
+    cases toMem
+    · -- external helper: the temp FILE is open
+      simp only [Bool.false_eq_true, if_false]
+      generalize hw1 : ({ w with openFds := w.openFds + 1 } : World) = w1
+      have h1 : HInv cb x w1 L (F + 1) c0 k0 b0 := by
+        subst hw1
+        obtain ⟨a1, a2, a3, a4, a5, a6, a7, a8⟩ := h
+        exact ⟨a1, by simp only; omega, a3, a4, a5, a6, a7, a8⟩
+      unfold hioReopenFile
+      cases ok
+      · simp only [Bool.not_false, if_true, Int.reduceNeg, Int.reduceLT]
+        obtain ⟨a1, a2, a3, a4, a5, a6, a7, a8⟩ := h1
+        refine ⟨a1, ?_, a3, a4, a5, ?_, ?_, a8⟩
+        · simp only [World.fcloseOwned]; omega
+        · simpa [World.fcloseOwned, List.count_cons] using a6
+        · simpa [World.fcloseOwned, List.count_cons] using a7
+      · simp only [Bool.not_true, Bool.false_eq_true, if_false, Int.lt_irrefl]
+        obtain ⟨c1, c2, c3, c4, c5⟩ := closeInternal_spec cb x w1 L (F + 1) c0 k0 b0 h1
+        apply ih
+        refine ⟨?_, ?_, ?_, ?_, ?_, c3, ?_, c5⟩
+        · intro u; simpa using c1 u
+        · simpa using c2
+        · intro _; exact ⟨rfl, rfl⟩
+        · intro hh; simp at hh
+        · intro _ _; exact Or.inr rfl
+        · simpa using c4
+    · -- internal depacker
+      simp only [if_true]
+      rcases alloc_cases w ⟨.depackBuf, rs.length⟩ with ha | ha <;> rw [ha]
+      · exact h.frame rfl rfl rfl rfl
+      · simp only
+        generalize hw1 : ({ w with oracle := w.oracle.tail, nalloc := w.nalloc + 1, live := ⟨.depackBuf, rs.length⟩ :: w.live } : World) = w1
+        have hl1 : w1.live = ⟨.depackBuf, rs.length⟩ :: w.live := by subst hw1; rfl
+        have hback : HInv cb x (w1.free (some ⟨.depackBuf, rs.length⟩)) L F c0 k0 b0 := by
+          rw [free_head w1 _ _ hl1]
+          subst hw1
+          exact h.frame rfl rfl rfl rfl
+        cases ok
+        · simpa using hback
+        · simp only [Bool.not_true, Bool.false_eq_true, if_false]
+          unfold hioReopenMem
+          rcases alloc_cases w1 ⟨.mfile, 1⟩ with hb | hb <;> rw [hb]
+          · simp only [Int.reduceNeg, Int.reduceLT, if_true]
+            have : ({ w1 with oracle := w1.oracle.tail, nalloc := w1.nalloc + 1 } : World).free (some ⟨.depackBuf, rs.length⟩)
+                = { (w1.free (some ⟨.depackBuf, rs.length⟩)) with oracle := w1.oracle.tail, nalloc := w1.nalloc + 1 } := by
+              simp [World.free, hl1]
+            rw [this]
+            exact hback.frame rfl rfl rfl rfl
+          · simp only [Int.lt_irrefl, if_false]
+            generalize hw2 : ({ w1 with oracle := w1.oracle.tail, nalloc := w1.nalloc + 1, live := ⟨.mfile, 1⟩ :: w1.live } : World) = w2
+            have h2 : HInv cb x w2 (⟨.mfile, 1⟩ :: ⟨.depackBuf, rs.length⟩ :: L) F c0 k0 b0 := by
+              subst hw2; subst hw1
+              obtain ⟨a1, a2, a3, a4, a5, a6, a7, a8⟩ := h
+              refine ⟨?_, a2, a3, a4, a5, a6, a7, a8⟩
+              intro u; have := a1 u
+              simp only [List.count_cons] at this ⊢
+              omega
+            obtain ⟨c1, c2, c3, c4, c5⟩ := closeInternal_spec cb x w2 _ F c0 k0 b0 h2
+            apply ih
+            refine ⟨?_, ?_, ?_, ?_, ?_, c3, ?_, c5⟩
+            · intro u; have := c1 u
+              simp only [ptrs_cons_some, ptrs_nil, List.count_cons, List.count_nil] at this ⊢
+              omega
+            · simpa using c2
+            · intro hh; simp at hh
+            · intro hh; simp at hh
+            · intro hh; simp at hh
+            · simpa using c4
+
+
+
+/-- hio_close under the invariant: everything the handle held is released -/
+theorem hioClose_spec (cb : Callbacks) (x : Hio) (w : World) (L : List Tok) (F c0 k0 b0 : Nat)
+    (h : HInv cb x w L F c0 k0 b0) :
+    let w' := hioClose cb x w
+    (∀ u, w'.live.count u = L.count u) ∧ w'.openFds = F ∧
+    w'.closed.count .callerFile = c0 ∧ w'.closed.count .callback = k0 ∧ w'.bad = b0 := by
+  obtain ⟨c1, c2, c3, c4, c5⟩ := closeInternal_spec cb x w L F c0 k0 b0 h
+  unfold hioClose
+  generalize hioCloseInternal cb x w = w1 at c1 c2 c3 c4 c5
+  have hm : x.h ∈ w1.live := by
+    have := c1 x.h
+    simp only [List.count_cons, List.count_nil, beq_self_eq_true, if_true] at this
+    exact List.count_pos_iff.mp (by omega)
+  rw [free_live hm]
+  refine ⟨?_, c2, c3, c4, c5⟩
+  intro u
+  have := c1 u
+  have hp : 0 < w1.live.count x.h := List.count_pos_iff.mpr hm
+  simp only [List.count_erase, List.count_cons, List.count_nil] at this ⊢
+  by_cases hxu : x.h = u
+  · subst hxu; simp at this ⊢; omega
+  · have : (x.h == u) = false := by simpa using hxu
+    simp [this] at *
+    omega
+
+/-- every entry point establishes the invariant (or fails having closed the callback) -/
+theorem openEntry_spec (e : Entry) (cb : Callbacks) (sizeOk : Bool) (w : World) :
+    let r := openEntry e cb sizeOk w
+    let k0 := w.closed.count .callback + (if e = .cb ∧ cb.hasClose = true then 1 else 0)
+    match r.1 with
+    | some x => HInv cb x r.2 w.live w.openFds (w.closed.count .callerFile) k0 w.bad
+    | none => r.2.live = w.live ∧ r.2.openFds = w.openFds ∧ r.2.closed.count .callerFile = w.closed.count .callerFile ∧
+        r.2.closed.count .callback = k0 ∧ r.2.bad = w.bad := by
+  unfold openEntry
+  cases e
+  · -- path
+    unfold hioOpenPath
+    rcases alloc_cases w ⟨.hio, 0⟩ with ha | ha <;> rw [ha]
+    · simp
+    · cases sizeOk
+      · simp [World.fcloseOwned, World.free, List.count_cons]
+      · simp only [Bool.not_true, Bool.false_eq_true, if_false, if_true]
+        refine ⟨?_, ?_, ?_, ?_, ?_, rfl, ?_, rfl⟩ <;> simp [List.count_cons]
+  · -- mem
+    unfold hioOpenMem
+    rcases alloc_cases w ⟨.hio, 0⟩ with ha | ha <;> rw [ha]
+    · simp
+    · simp only
+      generalize hw1 : ({ w with oracle := w.oracle.tail, nalloc := w.nalloc + 1, live := ⟨.hio, 0⟩ :: w.live } : World) = w1
+      have h1 : w1.live = ⟨.hio, 0⟩ :: w.live ∧ w1.bad = w.bad ∧ w1.closed = w.closed ∧ w1.openFds = w.openFds := by
+        subst hw1; simp
+      obtain ⟨l1, b1, c1, f1⟩ := h1
+      rcases alloc_cases w1 ⟨.mfile, 0⟩ with hb | hb <;> rw [hb]
+      · simp [World.free, l1, b1, c1, f1]
+      · simp only
+        refine ⟨?_, ?_, ?_, ?_, ?_, ?_, ?_, ?_⟩ <;> simp [l1, b1, c1, f1, List.count_cons]
+  · -- file
+    unfold hioOpenFile
+    rcases alloc_cases w ⟨.hio, 0⟩ with ha | ha <;> rw [ha]
+    · simp
+    · cases sizeOk
+      · simp [World.free]
+      · simp only [if_true]
+        refine ⟨?_, ?_, ?_, ?_, ?_, rfl, ?_, rfl⟩ <;> simp [List.count_cons]
+  · -- callbacks
+    obtain ⟨valid, hasClose, szOk⟩ := cb
+    unfold hioOpenCallbacks cbopen
+    cases valid
+    · cases hasClose <;> simp [World.close, List.count_cons]
+    · simp only [Bool.not_true, Bool.false_eq_true, if_false]
+      rcases alloc_cases w ⟨.cbfile, 0⟩ with ha | ha <;> rw [ha]
+      · cases hasClose <;> simp [World.close, List.count_cons]
+      · simp only
+        generalize hw1 : ({ w with oracle := w.oracle.tail, nalloc := w.nalloc + 1, live := ⟨.cbfile, 0⟩ :: w.live } : World) = w1
+        have h1 : w1.live = ⟨.cbfile, 0⟩ :: w.live ∧ w1.bad = w.bad ∧ w1.closed = w.closed ∧ w1.openFds = w.openFds := by
+          subst hw1; simp
+        obtain ⟨l1, b1, c1, f1⟩ := h1
+        rcases alloc_cases w1 ⟨.hio, 0⟩ with hb | hb <;> rw [hb]
+        · cases hasClose <;> simp [cbclose, World.close, World.free, l1, b1, c1, f1, List.count_cons]
+        · cases szOk
+          · cases hasClose <;>
+              simp [cbclose, World.close, World.free, l1, b1, c1, f1, List.count_cons, List.erase_cons]
+          · simp only [if_true]
+            refine ⟨?_, ?_, ?_, ?_, ?_, ?_, ?_, ?_⟩ <;> simp [l1, b1, c1, f1, List.count_cons]
+            intro u; omega
+
+theorem stream_ownership (e : Entry) (cb : Callbacks) (sizeOk : Bool) (rs : List (Bool × Bool)) (w : World) :
+    let r := streamLife e cb sizeOk rs w
+    (r.2.closed.count .callerFile = w.closed.count .callerFile) ∧
+    (r.2.closed.count .callback = w.closed.count .callback + (if e = .cb ∧ cb.hasClose = true then 1 else 0)) ∧
+    r.2.openFds = w.openFds ∧ r.2.bad = w.bad ∧ (∀ u, r.2.live.count u = w.live.count u) := by
+  have ho := openEntry_spec e cb sizeOk w
+  unfold streamLife
+  generalize openEntry e cb sizeOk w = r at ho
+  obtain ⟨ox, w1⟩ := r
+  cases ox with
+  | none =>
+    simp only at ho ⊢
+    obtain ⟨a, b, c, d, f⟩ := ho
+    exact ⟨c, d, b, f, fun u => by rw [a]⟩
+  | some x =>
+    simp only at ho ⊢
+    have hi := reopenSeq_inv cb rs x w1 _ _ _ _ _ ho
+    obtain ⟨c1, c2, c3, c4, c5⟩ := hioClose_spec cb _ _ _ _ _ _ _ hi
+    exact ⟨c3, c4, c2, c5, c1⟩
+
+
 end Xmp.Resource
